@@ -395,7 +395,7 @@ func hangSuspect(id, tier, shard, note, replays string, slowestShard time.Durati
 	confirmed := false
 	if exe, err := os.Executable(); err == nil {
 		cmd := exec.Command(exe, "worker", id, shard, "--tier", tier)
-		cmd.Env = append(os.Environ(), "LZMC_NO_NESTED=1")
+		cmd.Env = append(os.Environ(), "LZMC_CHILD=1")
 		done := make(chan error, 1)
 		if err := cmd.Start(); err == nil {
 			go func() { done <- cmd.Wait() }()
